@@ -1001,6 +1001,28 @@ func c11Compiled(c *Ctx) {
 			continue
 		}
 		r.hist("compiled_nestings")
+		// the fork set as the model builds it (makeForkIds; forkSet_names_nodup): same id strings in the same order
+		{
+			enc := func(kind string, n int, keys []string) string {
+				if kind == "arr" {
+					return fmt.Sprintf("a:%d", n)
+				}
+				ks := append([]string{}, keys...)
+				sort.Strings(ks)
+				return "k:" + hxList(ks)
+			}
+			// ForkRoots of TOP.INNER.ECHO: the outer call's source first
+			rep := c.Drv.Ask("C11.makeforkids", enc(nn.okind, nn.on, nn.okeys)+";"+enc(nn.ikind, nn.in, nn.ikeys))
+			var mids []string
+			for _, h := range strings.Split(rep, ";") {
+				mids = append(mids, unhx(h))
+			}
+			r.hist("compiled_forksets_vs_model")
+			if strings.Join(mids, "\x00") != strings.Join(ids, "\x00") {
+				r.violate(Violation{Kind: "correspondence", Key: "C11:forkset-model-mismatch", What: "the fork set ForkIdSet.MakeForkIds builds for a compiled nesting differs from the model's makeForkIds (id strings, list order)",
+					Input: map[string]interface{}{"mro": src, "stage": "TOP.INNER.ECHO"}, Impl: ids, Model: mids, Broken: "correspondence C11.makeforkids (forkSet_names_nodup)"})
+			}
+		}
 		want := 1
 		if nn.okind == "arr" {
 			want *= nn.on
